@@ -272,8 +272,11 @@ def unroll_literal_loops(tree):
             if len(node.targets) == 1 and isinstance(node.targets[0], (ast.Tuple, ast.List)) and isinstance(node.value, (ast.Tuple, ast.List)) \
                     and len(node.targets[0].elts) == len(node.value.elts) and all(isinstance(t, ast.Name) for t in node.targets[0].elts) \
                     and not any(isinstance(v, ast.Starred) for v in node.value.elts):
-                names = {t.id for t in node.targets[0].elts}
-                if len(names) == len(node.targets[0].elts) and not any(isinstance(x, ast.Name) and x.id in names for v in node.value.elts for x in ast.walk(v)):
+                order = [t.id for t in node.targets[0].elts]
+                names = set(order)
+                # sequential assignment is the same unless a later element reads a name an earlier pair has already re-bound
+                clash = any(isinstance(x, ast.Name) and x.id in order[:j] for j, v in enumerate(node.value.elts) for x in ast.walk(v))
+                if len(names) == len(order) and not clash:
                     return [ast.copy_location(ast.Assign(targets=[ast.Name(id=t.id, ctx=ast.Store())], value=v, type_comment=None), node)
                             for t, v in zip(node.targets[0].elts, node.value.elts)]
             return node
